@@ -430,6 +430,7 @@ func checkC03(c *Ctx, r *Report) {
 	r.rule("C03.R3", "marshal errors are propagated: no payload is used when marshalling failed", 1)
 	r.rule("C03.R4", "payload and record length come from the same marshal result", 1)
 	r.rule("C03.R6", "every BER header inside a payload announces its contents with enough (and no more than needed) length / tag / INTEGER octets (shared with C04.R9)", 6)
+	r.rule("C03.R7", "the buffers the octets are assembled in are empty at the first write, so the length members count exactly the octets of this file (shared with C15.R6)", 3)
 	r.rule("C03.R5", "the file on disk is replaced by exactly the encoded octets, so the file length member equals the file size (shared with C15.R5)", 1)
 
 	f := c.fn("internal/sbi/processor", "dumpCdrFile")
@@ -474,6 +475,7 @@ func checkC03(c *Ctx, r *Report) {
 		r.check(len(diffs) == 0, "C03.R2", k, c.rel(f.Pos()), "header length, file length, record length and count agree with the encoded sizes", strings.Join(diffs, "; "))
 	}
 	fileReplaced(c, r, "C03.R5")
+	buffersStartEmpty(c, r, "C03.R7", l.hdrFn, l.recFn, l.fileFn)
 	c04DigitCounts(c, r, "C03.R6")
 }
 
